@@ -169,6 +169,16 @@ Publish(c, t, q, retain, pl, id, dup) ==
   /\ UNCHANGED <<conn, sess, subs, closed>>
   /\ Log([a |-> "publish", c |-> c, t |-> Join(t), q |-> q, r |-> retain, pl |-> pl, id |-> id, dup |-> dup])
 
+\* Churn: the client sends enough unrelated traffic (publishes on a topic nobody is subscribed to) for its incoming ring to
+\* go round once.  Nothing changes - in particular not what the broker remembered from this connection's earlier
+\* packets (filters, topics, payloads, wills), which an implementation must have copied out of the ring.
+ChurnTopic == <<"zz", "churn">>
+Churn(c) ==
+  /\ c \in Conns /\ Up(c) /\ \A x \in subs : ~Matches(x.f, ChurnTopic)
+  /\ out' = O0
+  /\ UNCHANGED <<conn, sess, subs, ret, closed>>
+  /\ Log([a |-> "churn", c |-> c])
+
 Publish2(c, t, retain, pl, id, dup) ==
   /\ c \in Conns /\ Up(c)
   /\ LET k == conn[c].cid
